@@ -30,7 +30,9 @@ View == << made, cols, cells, units, nw >>
 
 NC == Len(cols)
 NR == Len(cells)
-CanStep == Len(hist) < MaxDepth
+\* (a write with an index list that is not increasing is a leaf: the library may refuse it, so nothing is built on it;
+\*  it is marked by nw = -1)
+CanStep == Len(hist) < MaxDepth /\ nw >= 0
 Log(a) == act' = a /\ hist' = Append(hist, a)
 Refuse(a) == Log(a) /\ UNCHANGED << made, cols, cells, units, nw >>
 ColNames == { cols[i].n : i \in 1..NC }
@@ -76,7 +78,7 @@ WriteRows(idx) ==
                       THEN LET i == CHOOSE j \in 1..Len(idx) : idx[j] = r - 1 IN
                            [c \in 1..NC |-> << nw + 1, (i - 1) * NC + (c - 1) >>]
                       ELSE cells[r]]
-    /\ nw' = nw + 1
+    /\ nw' = IF Increasing(idx) THEN nw + 1 ELSE -1
     /\ Log([name |-> "WriteRows", idx |-> idx, may_refuse |-> ~Increasing(idx), out |-> "ok"]) /\ UNCHANGED << made, cols, units >>
 
 WriteColumn(c, by) ==
